@@ -365,6 +365,10 @@ func runC15(w *World, r *Report) {
 			"a source/target path that descends into a scalar (or other non-container) type can pass the static check ("+wit+"): Compile accepts the mapping and the run panics in takeOne/assignOne instead of the mapping being rejected")
 	}
 
+	// ---- a map entry held by value is a copy: it is stored back after the assignment below it
+	r.Rule("C15.entry-stored-back", "assignOne: the pending (map, key, entry) triple is kept until the assignment is done and the ENTRY is what is stored back under the key", 1)
+	entryStoredBackCheck(w, r, "C15.entry-stored-back")
+
 	// ---- reflect-addr: what is read out of a map with MapIndex is a copy that cannot be written in place
 	r.Rule("C15.reflect-addr", "no reflect.Value obtained from Value.MapIndex (or a field of it) is used as the destination of a Set: a struct-valued map entry is copied to an addressable value first", 1)
 	{
@@ -489,6 +493,18 @@ func runC15(w *World, r *Report) {
 					bad = p.Pos()
 				}
 			})
+			// reflect's by-name field access panics when the name is promoted through an embedded pointer that is nil in
+			// the value at hand (the static check resolves promoted fields on the TYPE and accepts the mapping)
+			var byName ssa.Instruction
+			instrs(fn, func(in ssa.Instruction) {
+				switch calleeFullName(in) {
+				case "(reflect.Value).FieldByName", "(reflect.Value).FieldByIndex", "(reflect.Value).FieldByNameFunc":
+					byName = in
+				}
+			})
+			if byName != nil {
+				r.Fail("C15.request-time-no-panic", w.fname(origin(fn))+" reaches struct fields without reflect's panicking by-name access", byName.Pos(), "reflect.Value.FieldByName / FieldByIndex panic ('indirection through nil pointer to embedded struct') for a field promoted through an embedded pointer that is nil: compile accepts such a mapping (Type.FieldByName resolves promoted fields), the run panics out of Invoke — on the target side on every run, since the successor input is built from the zero value; FieldByIndexErr reports it as an error")
+			}
 			r.Check(bad == token.NoPos, "C15.request-time-no-panic", w.fname(origin(fn))+" has no explicit panic", fn.Pos(), "errors are returned", "request-time mapping code panics explicitly at "+w.pos(bad)+": a value the static check could not see (a typed nil / unexpected dynamic type behind an interface, a zero-value input of a node none of whose data predecessors ran, a nil into map[string]*T …) takes the run down with a panic instead of an ordinary error")
 		}
 		if n < 8 {
@@ -947,5 +963,125 @@ func checkerPresentKeys(w *World, r *Report, rule string) {
 	}
 	if n == 0 {
 		undecidedf("%s: no per-field checker call found in validateFieldMapping's literals", rule)
+	}
+}
+
+// entryStoredBackCheck: assignOne walks a target path through maps whose entries may be held BY VALUE (a struct): what
+// it descends into is then a copy, and the copy has to be stored back under its key after the assignment below it.
+// The walk keeps the pending entry in loop-carried cells (the parent map, the key, the entry). Decided here:
+//
+//	(1) inside the loop the parent-map cell is only ever replaced by a new parent, never reset to the invalid Value
+//	    (a reset forgets an entry that still has to be stored back);
+//	(2) every store-back parent.SetMapIndex(key, V) stores a loop-carried cell V that is updated in lockstep with the
+//	    parent-map cell (the entry recorded together with its map and key) — not the walk's current cursor, which may
+//	    be a field deep inside the entry.
+func entryStoredBackCheck(w *World, r *Report, rule string) {
+	fn := w.Fn("compose", "assignOne")
+	isZeroValue := func(v ssa.Value) bool {
+		c, ok := v.(*ssa.Const)
+		return ok && c.Value == nil && isReflectValue(c.Type())
+	}
+	headers := map[*ssa.BasicBlock]bool{}
+	for _, li := range naturalLoops(fn) {
+		headers[li.header] = true
+	}
+	type sb struct {
+		call *ssa.Call
+		pm   *ssa.Phi
+	}
+	var sbs []sb
+	instrs(fn, func(in ssa.Instruction) {
+		c, ok := in.(*ssa.Call)
+		if !ok || calleeFullName(c) != "(reflect.Value).SetMapIndex" {
+			return
+		}
+		pm, ok := c.Call.Args[0].(*ssa.Phi)
+		if !ok || !headers[pm.Block()] {
+			return
+		}
+		// the parent-map cell starts out invalid
+		starts := false
+		for _, e := range pm.Edges {
+			if isZeroValue(e) {
+				starts = true
+			}
+		}
+		if starts {
+			sbs = append(sbs, sb{c, pm})
+		}
+	})
+	if len(sbs) < 2 {
+		r.Fail(rule, "assignOne: store-backs into the pending parent map", fn.Pos(), fmt.Sprintf("%d SetMapIndex calls on a loop-carried parent-map cell found (floor 2)", len(sbs)))
+		return
+	}
+	// strip phis that merely merge the cell with itself / a reset
+	var leaves func(v ssa.Value, self *ssa.Phi, seen map[ssa.Value]bool, out *[]ssa.Value)
+	leaves = func(v ssa.Value, self *ssa.Phi, seen map[ssa.Value]bool, out *[]ssa.Value) {
+		if seen[v] {
+			return
+		}
+		seen[v] = true
+		if p, ok := v.(*ssa.Phi); ok && p != self && !headers[p.Block()] {
+			for _, e := range p.Edges {
+				leaves(e, self, seen, out)
+			}
+			return
+		}
+		*out = append(*out, v)
+	}
+	pm := sbs[0].pm
+	preheader := -1
+	for i, e := range pm.Edges {
+		if isZeroValue(e) && !pm.Block().Preds[i].Dominates(pm.Block()) == false {
+			_ = e
+		}
+		if !pm.Block().Dominates(pm.Block().Preds[i]) {
+			preheader = i
+		}
+	}
+	reset := false
+	updated := map[int]bool{}
+	for i, e := range pm.Edges {
+		if i == preheader {
+			continue
+		}
+		var ls []ssa.Value
+		leaves(e, pm, map[ssa.Value]bool{}, &ls)
+		for _, l := range ls {
+			if isZeroValue(l) {
+				reset = true
+			}
+			if l != ssa.Value(pm) {
+				updated[i] = true
+			}
+		}
+	}
+	r.Check(!reset, rule, "assignOne: the pending parent map is never forgotten inside the walk", pm.Pos(), "in-loop values of the parent-map cell: itself or a new parent", "the parent-map cell is reset to the invalid Value inside the loop: an entry held by value (map[string]S) that the walk has descended into is stored back BEFORE the assignment below it and then forgotten — the mapped value lands in a local copy and is silently lost (target path mapKey -> structField -> field)")
+	if reset {
+		return // (2) is a necessary condition only of a walk that keeps the parent across struct levels
+	}
+	for k, s := range sbs {
+		v := s.call.Call.Args[2]
+		pe, ok := v.(*ssa.Phi)
+		good := ok && headers[pe.Block()] && pe.Block() == pm.Block() && pe != pm
+		if good {
+			for i, e := range pe.Edges {
+				if i == preheader {
+					continue
+				}
+				var ls []ssa.Value
+				leaves(e, pe, map[ssa.Value]bool{}, &ls)
+				upd := false
+				for _, l := range ls {
+					if l != ssa.Value(pe) {
+						upd = true
+					}
+				}
+				if upd != updated[i] {
+					good = false
+				}
+			}
+		}
+		r.Check(good, rule, fmt.Sprintf("assignOne: store-back #%d stores the recorded entry", k+1), s.call.Pos(), "the stored value is a loop-carried cell updated together with the parent map and key", "the value stored back under the pending key is not the entry that was recorded with that key (it is the walk's cursor): below a struct-valued entry the cursor is a field inside the entry — the wrong value is stored, or the entry is stored before the assignment below it")
 	}
 }
